@@ -41,7 +41,9 @@ RULE = (
     "(K) configuration sweep on the plain structure: single-set n_modes 1..5 x spectrum x solver; SparsePCA alpha x n_modes; POP n_pca_modes x n_modes; "
     "rotators k in 2..4 x power 1..3 x spectrum {geometric, near_equal_var}; CPCCA alpha in {0,.25,.5,1}^2 x PCA {off, 3, all} x n_modes; named classes x PCA; "
     "cross rotators alpha^2 x PCA x k x power x spectrum (quick: alpha in {0,.5,1}^2 x PCA {off,3} at k=3, power 2, plus power {1,3} on three whitening pairs); multi.CCA views {2,3} x pca x c x n_modes. "
-    "(P) provenance sweep: {refitted on the same object after a fit on other data, dask input + compute=False then compute(), serialize->deserialize} x class x container. "
+    "(P) provenance sweep: {refitted on the same object after a fit on other data, dask input + compute=False then compute(), serialize->deserialize, "
+    "rotator_reused = the judged rotator object first rotated another model fitted on other data and answered one transform, "
+    "model_reused = fit(other data); transform(other data); fit(judged data) on one object} x class x container (quick: DataArray, no mask). "
     "Within every case: normalized in {False, True} and, for cross-set classes, call form in {X and Y, X only, Y only}. "
     "A case is non-trivial when both answers were returned, contain finite non-zero numbers and were compared at >= 1 valid sample label"
 )
@@ -50,7 +52,8 @@ ASSUMPTIONS = [
     "n_modes never exceeds the numeric rank of the (reduced) data and SparsePCA's penalty (alpha <= 1e-2) leaves every component non-zero: a mode of zero variance has no normalised score (0/0) and is outside the quantifier",
     "alpha < 1 without PCA is enumerated only on fields with non-singular covariance (features <= valid samples - 1), as in C09",
     "cross-set inputs with missing samples have them at the same sample labels in X and Y (differing positions are C06's subject)",
-    "complex input is not combined with dask (documented refusal, DESIGN 3.4); multi.CCA offers neither compute=False provenance nor serialisation",
+    "complex input is not combined with dask (documented refusal, DESIGN 3.4); multi.CCA offers neither compute=False provenance nor serialisation; "
+    "rotator_reused applies to the six rotator classes, model_reused to the thirteen others",
     "deferred rotators pin max_iter=16 (DESIGN 2.2); the relation is independent of whether the rotation converged because both answers use the one stored rotation matrix",
     "Hilbert* classes are not in the alphabet: their transform is a documented refusal",
 ]
@@ -79,7 +82,7 @@ SECONDARY = ("CCA", "RDA", "ComplexMCA", "ComplexCCA", "ComplexRDA", "ComplexEOF
 CONTAINERS = ("DataArray", "Dataset", "list")
 MASKS = ("none", "sample", "feature", "both")
 FLAGS = ("default", "nocenter", "std_w")
-PROVS = ("fresh", "refit", "deferred", "deserialized")
+PROVS = ("fresh", "refit", "deferred", "deserialized", "rotator_reused", "model_reused")
 
 
 # ----------------------------------------------------------------------------- alphabet
@@ -133,6 +136,7 @@ def _case(sweep, model, **kw):
         alpha=None,
         pca="off",
         extra=None,
+        dseed=None,
     )
     if model in SINGLE_ROT:
         c.update(n_modes=4, rot=[3, 2])
@@ -282,6 +286,22 @@ def _config_cases(tier):
     for base in ("CCA", "RDA") if q else ("CCA", "RDA", "ComplexCCA", "ComplexRDA"):
         for power in ((2,) if q else (1, 2)):
             out.append(_case("config", "ComplexCPCCARotator" if base.startswith("Complex") else "CPCCARotator", base=base, cplx=base.startswith("Complex"), alpha=NAMED_ALPHA[base.replace("Complex", "")], pca=3, n_modes=3, rot=[3, power]))
+    # ---- rotations known to re-order their modes: data drawn from the pinned catalogue seed 0 instead of VERIF_SEED, so that the
+    # re-sorting step of transform is exercised for every (family, power class) whatever the run's seed is (vacuity guard below)
+    for model, alpha, rots in (
+        ("EOFRotator", None, ([3, 1], [3, 3])),
+        ("CPCCARotator", [0.0, 1.0], ([3, 1], [3, 3])),
+        ("MCARotator", None, ([3, 1], [3, 3])),
+        ("ComplexCPCCARotator", [0.5, 0.5], ([3, 1], [3, 2])),
+        ("ComplexMCARotator", None, ([3, 1], [3, 3])),
+    ):
+        for rot in rots:
+            kw = dict(n_modes=4 if model in SINGLE_ROT else 3, rot=list(rot), dseed=0)
+            if model in CROSS_ROT:
+                kw["pca"] = "off"
+            if alpha is not None:
+                kw["alpha"] = list(alpha)
+            out.append(_case("config", model, **kw))
     # ---- multi-set
     for views in (2, 3):
         for pca in (False, True):
@@ -292,6 +312,11 @@ def _config_cases(tier):
 
 
 def _prov_applicable(model, prov):
+    is_rot = model in SINGLE_ROT or model in CROSS_ROT
+    if prov == "rotator_reused":
+        return is_rot
+    if prov == "model_reused":
+        return not is_rot
     if model == "multi.CCA":
         return prov == "refit"
     if prov == "deferred" and _is_cplx(model):
@@ -489,6 +514,17 @@ def _fit(case, m, fields):
         m.fit([f["obj"] for f in fields], dim=_dim(fields[0]))
 
 
+def _transform_once(case, obj, fields):
+    """one transform call whose answer is discarded (history only; what it returns is judged by the fresh cases)."""
+    fam = case["family"]
+    if fam == "single":
+        obj.transform(fields[0]["obj"])
+    elif fam == "cross":
+        obj.transform(fields[0]["obj"], fields[1]["obj"])
+    else:
+        obj.transform([f["obj"] for f in fields])
+
+
 def _non_convergence(e):
     return isinstance(e, RuntimeError) and "did not converge" in str(e)
 
@@ -496,6 +532,8 @@ def _non_convergence(e):
 def realize(case, seed):
     """Fit (and rotate) along the case's provenance; returns (subject whose transform/scores are observed, fields, info)."""
     fam = case["family"]
+    if case.get("dseed") is not None:
+        seed = case["dseed"]  # pinned catalogue seed (see `_config_cases`)
     roles = ["X"] if fam == "single" else (["X", "Y"] if fam == "cross" else ["X", "Y", "Z"][: case["extra"]["views"]])
     fields = [build_field(case, seed, r) for r in roles]
     m, rot = make_models(case, *fields[:2]) if fam != "multi" else make_models(case, fields[0])
@@ -505,6 +543,18 @@ def realize(case, seed):
         _fit(case, m, other)
         if rot is not None:
             rot.fit(m)
+    if prov == "model_reused":
+        # the judged object has already been fitted on, AND asked to transform, other data
+        other = [build_field(case, seed, r, which="D2") for r in roles]
+        _fit(case, m, other)
+        _transform_once(case, m, other)
+    if prov == "rotator_reused":
+        # the judged rotator object has already rotated ANOTHER model (fitted on other data) and answered one transform
+        other = [build_field(case, seed, r, which="D2") for r in roles]
+        m_other, _ = make_models(case, *other[:2])
+        _fit(case, m_other, other)
+        rot.fit(m_other)
+        _transform_once(case, rot, other)
     _fit(case, m, fields)
     subject = m
     if rot is not None:
@@ -629,6 +679,8 @@ def _run(case, seed):
     mname = case["model"]
     plain = case["container"] == "DataArray" and case["ycontainer"] == "DataArray" and case["sdims"] == 1 and case["labels"] == "ascending" and case["mask"] == "none" and case["flags"] == "default" and case["prov"] == "fresh"
     structure = "plain" if plain else "varied"
+    if case["prov"] in ("refit", "rotator_reused", "model_reused"):
+        structure = "history:" + case["prov"]  # the judged object carried earlier fitted state
     V = []
 
     try:
@@ -767,6 +819,8 @@ def _brief(c):
         parts.append("%s" % c["extra"])
     if c["spec"] != "geometric":
         parts.append(c["spec"])
+    if c.get("dseed") is not None:
+        parts.append("data seed pinned to %d" % c["dseed"])
     return ", ".join(parts)
 
 
@@ -786,10 +840,12 @@ def vacuity(outcomes, results, tier):
             sub = [i for i in judged if i["family"] == fam and i["rot"] and i["power1"] == p1]
             if not sub:
                 return "no %s-set rotator with power %s judged" % (fam, "1" if p1 else ">1")
-    # which rotations happen to re-order their modes depends on the seed's data; demand it once per run, the per
-    # family/power tally is in the evidence (finalize)
-    if not any(i.get("perm_nonidentity") for i in judged if i["rot"]):
-        return "no rotator re-ordered its modes: the re-sorting step of transform was never exercised"
+    # which rotations re-order their modes depends on the data; the pinned-seed cases of `_config_cases` guarantee one per
+    # (family, power class) independently of VERIF_SEED, so its absence means the re-sorting step of transform went unexercised
+    for fam in ("single", "cross"):
+        for p1 in (True, False):
+            if not any(i.get("perm_nonidentity") for i in judged if i["family"] == fam and i["rot"] and i["power1"] == p1):
+                return "no %s-set rotator with power %s re-ordered its modes: the re-sorting step of transform was never exercised" % (fam, "1" if p1 else ">1")
     for model in ("CPCCA", "CPCCARotator", "ComplexCPCCA", "ComplexCPCCARotator"):
         seen = {i["alpha_lt_1"] for i in judged if i["model"] == model}
         if seen != {True, False}:
